@@ -184,7 +184,7 @@ pub fn jobs(tier: Tier) -> Vec<Job> {
                 continue; // quick visits half of the length-3 blocks (thorough: all)
             }
             let on_x = seq.iter().all(|&t| templates[t].tags.contains(&"X"));
-            let b = if tier == Tier::Quick && seq.len() == 2 && matches!(spec, SpecId::CANCUN) && on_x { 2 } else { bound };
+            let b = if tier == Tier::Quick && seq.len() == 2 && matches!(spec, SpecId::BERLIN | SpecId::CANCUN) && on_x { 2 } else { bound };
             v.push(pipeline_job("c08-lifecycle", &case, &RunCfg::parallel(2), COARSE, b, false));
         }
     }
